@@ -680,6 +680,65 @@ def check_assembly(ctx):
     ctx.floor("C02.assembly", 29, "assembled packets")
 
 
+def ext_origin(ctx) -> None:
+    """Originated extended headers: every field the initialiser of an extended-header class fills is a plain copy - of one
+    of its parameters (each parameter feeds at most one field, and its annotated type is the field's), or of the
+    same-named attribute reached from a parameter (`a=request.area.a`); a constant only where it is the field's default.
+    Anything computed (max / min / arithmetic / another field's attribute) puts a value on the wire the request did not ask for."""
+    P = ctx.prog
+    n = 0
+    for ci in sorted(P.classes.values(), key=lambda c: c.qual):
+        if not (ci.module.name.startswith("flexstack.geonet.") and ci.module.name.endswith("_extended_header")):
+            continue
+        for name, fi in sorted(ci.methods.items()):
+            if not name.startswith("initialize") or fi.kind != "classmethod":
+                continue
+            fl = ctx.flows.get(fi)
+            params = fi.params[1:]
+            cls_name = fi.params[0] if fi.params else "cls"
+            for k, s_, st in fl.exits:
+                if k != "return" or not isinstance(s_.value, ast.Call):
+                    continue
+                c = s_.value
+                if not (isinstance(c.func, ast.Name) and c.func.id in (cls_name, ci.name)):
+                    continue
+                used = {}
+                for kw in c.keywords:
+                    if kw.arg is None:
+                        continue
+                    n += 1
+                    v = fl.expand(kw.value, st)
+                    fld = ci.fields.get(kw.arg)
+                    ok, why = False, ""
+                    if isinstance(v, ast.Name) and v.id in params:
+                        a_par = [a.annotation for a in fi.node.args.args if a.arg == v.id][0]
+                        t_par = P.ann_types(fi.module, a_par) if a_par is not None else set()
+                        t_fld = P.ann_types(ci.module, fld[0]) if fld and fld[0] is not None else set()
+                        if v.id in used:
+                            why = f"parameter `{v.id}` also feeds `{used[v.id]}`"
+                        elif t_par and t_fld and t_par != t_fld:
+                            why = f"parameter `{v.id}` has type {sorted(map(str, t_par))}, the field {sorted(map(str, t_fld))}"
+                        else:
+                            ok = True
+                            used[v.id] = kw.arg
+                    elif isinstance(v, ast.Attribute) and dotted(v) and dotted(v).split(".")[0] in params:
+                        ok = v.attr == kw.arg
+                        why = "" if ok else f"fed by `{dotted(v)}` (another attribute than `{kw.arg}`)"
+                    else:
+                        cv = P.try_fold(fi.module, v, default=_NOFOLD)
+                        dv = P.try_fold(ci.module, fld[1], default=_NOFOLD) if fld and fld[1] is not None else _NOFOLD
+                        ok = cv is not _NOFOLD and dv is not _NOFOLD and cv == dv
+                        why = "" if ok else f"computed as `{sem.cx(v)}`"
+                    ctx.ob("C02.origin", fi.short(), f"ext:{kw.arg}", ok,
+                           f"`{kw.arg}` of the originated {ci.name} is a plain copy (`{sem.cx(v)}`)" if ok else
+                           f"`{kw.arg}` of the originated {ci.name} is not a plain copy of what the caller asked for - {why}", f"{fi.module.rel}:{s_.lineno}")
+    if n < 17:
+        raise AnalysisError(f"C02: only {n} fields filled by extended-header initialisers found (confirmed: 23)")
+
+
+_NOFOLD = object()
+
+
 def run(ctx):
     ctx.explanation = (
         "Static layout analysis. Every encoder/decoder of the 14 header codecs is abstractly interpreted "
@@ -699,6 +758,7 @@ def run(ctx):
     ctx.floor("C02.enums", 40, "enum members")
     check_flags_reserved_pl(ctx)
     check_assembly(ctx)
+    ext_origin(ctx)
     from . import gnutil as G
     G.check_copy_methods(ctx, "C02.copy-faithful", [
         "geonet.basic_header.BasicHeader", "geonet.service_access_point.TrafficClass", "geonet.gn_address.GNAddress",
